@@ -75,6 +75,7 @@ class Para:
     self.text_align = None
     self.direction = None
     self.flags = set()
+    self.hidden = set()     # word tokens of text with computed tts:visibility hidden
 
 
 def region_paragraphs(sn):
@@ -107,6 +108,11 @@ def region_paragraphs(sn):
       continue
     if leaf.preserve:
       cur.exact = False
+    if sn.elements[leaf.chain[-1]][1].get("Visibility") is s.VisibilityType.hidden:
+      # tts:visibility="hidden": the text keeps its place in the layout but is not visible; the white space around it is not asserted
+      cur.exact = False
+      cur.hidden.update(tokens_of(leaf.text))
+      continue
     st = leaf_style(sn, leaf)
     in_rb = any(k in ("rb", "rbc", "ruby") for k in ks)
     for c in leaf.text:
@@ -146,8 +152,12 @@ def round_ms(t):
   return {Fraction(f, 1000), Fraction(f + 1, 1000)}
 
 
+HIDDEN_TOKENS = set()    # word tokens hidden by tts:visibility in the document of the last expected_cues() call
+
+
 def expected_cues(doc, spec, per_region):
   """expected cues, in order: one per significant interval (and per region when per_region) holding non-blank text"""
+  HIDDEN_TOKENS.clear()
   ref = Ref(spec)
   sig = list(ISD.significant_times(doc))
   out = []
@@ -178,6 +188,7 @@ def expected_cues(doc, spec, per_region):
       cue.region = sn
       cue.region_index = gi
       cue.paras = paras
+      HIDDEN_TOKENS.update(t for p in paras for t in p.hidden)
       for p in paras:
         cue.exact = cue.exact and p.exact
         for l in p.lines:
@@ -258,6 +269,8 @@ def compare_text(exp, cues, res, fmt, grouped):
         if where != "other":
           break
       res.fail("%s:lost-text:%s" % (fmt, where), "lost %r" % lost[:5])
+    elif extra and set(extra) <= HIDDEN_TOKENS:
+      res.fail("%s:hidden-text-written" % fmt, "text with computed tts:visibility=hidden is in the output: %r" % extra[:5])
     elif extra:
       res.fail("%s:%s" % (fmt, "repeated-text" if set(extra) <= set(etoks) else "invented-text"), "extra %r" % extra[:5])
     else:
